@@ -305,7 +305,23 @@ def d2(chk, prog):
         want = [(sg.log2, sg.weight, sg.probes) for sg in segs if abs(sg.log2) >= thr]
         tb3.cell(len(got) == len(want) and all(same(a[0], b[0]) and same(a[1], b[1]) and same(a[2], b[2]) for a, b in zip(got, want)),
                  dict(got=[repr(x) for x in got], want=[repr(x) for x in want]))
-    tb3.done("gene rows inside a segment do not carry the segment's log2 / are not filtered on it")
+    # end to end on literal bins (real by_ranges, group_by_genes, by_gene): every gene inside a segment that reaches the threshold is listed with the segment's log2 --
+    # also a gene whose own bins have no usable coverage when low-coverage bins are skipped
+    for skip_low in (False, True):
+        W.reset()
+        names = ["GA", "GA", "GA", "GB", "GB", "GC"]
+        brow = [dict(chromosome="chr1", start=10 * i, end=10 * i + 10, gene=nm, log2=(Fr(-25) if nm == "GB" else Fr(i, 8)), depth=(Fr(0) if nm == "GB" else Fr(5)), weight=Fr(1, 2)) for i, nm in enumerate(names)]
+        bins_ = make_ga("CopyNumArray", brow, {"sample_id": "S"}, index="range", exact=True, labels=list(range(len(names))))
+        seg_ = make_ga("CopyNumArray", [dict(chromosome="chr1", start=0, end=50, gene="-", log2=Fr(1, 2), probes=5, weight=Fr(5, 2)), dict(chromosome="chr1", start=50, end=60, gene="-", log2=Fr(1, 100), probes=1, weight=Fr(1, 2))],
+                       {"sample_id": "S"}, index="range", exact=True, labels=[0, 1])
+        it = Interp(prog)
+        out = tb3.guard(lambda: list(it.run(fs.qn, [bins_, seg_, Fr(1, 5), skip_low])), f"literal bins skip_low={skip_low}")
+        if out is None:
+            continue
+        got = [(r._d.get("gene"), r._d.get("log2"), r._d.get("segment_probes")) for r in out]
+        want = [("GA", Fr(1, 2), 5), ("GB", Fr(1, 2), 5)]
+        tb3.cell(len(got) == len(want) and all(a[0] == b[0] and same(a[1], b[1]) and same(a[2], b[2]) for a, b in zip(got, want)), dict(skip_low=skip_low, got=[repr(x) for x in got], want=[repr(x) for x in want]))
+    tb3.done("gene rows inside a segment do not carry the segment's log2 / are not filtered on it (or a gene inside a reported segment is left out)")
 
     # squash_genes.squash_rows
     fq = prog.fn("cnvlib.cnary.CopyNumArray.squash_genes")
